@@ -37,6 +37,8 @@ type MSpec struct {
 	Kind int    `json:"kind"`
 	Thr  int    `json:"thr,omitempty"` // content: yes iff last needed byte < Thr
 	Not  bool   `json:"not,omitempty"`
+	// And: with Not, a second matcher inside the negated set: not{ this AND And }
+	And  *MSpec `json:"and,omitempty"`
 	Real string `json:"real,omitempty"` // "tls", "proxy_protocol": a shipped matcher instead
 
 	m *worlds.SpecMatcher
@@ -128,7 +130,11 @@ func (b *Builder) Matcher(ms *MSpec) layer4.ConnMatcher {
 		m = sm
 	}
 	if ms.Not {
-		m = &layer4.MatchNot{MatcherSets: []layer4.MatcherSet{{m}}}
+		inner := layer4.MatcherSet{m}
+		if ms.And != nil {
+			inner = append(inner, b.Matcher(ms.And))
+		}
+		m = &layer4.MatchNot{MatcherSets: []layer4.MatcherSet{inner}}
 	}
 	return m
 }
